@@ -19,6 +19,7 @@ func init() {
 		Explanation: "Safe-browsing / parental lookups. Decided: (D1) privacy: the message handed to the lookup upstream is built only from constants, the configured TXT suffix and hex encodings of h[:k] where h is a SHA-256 sum and k a constant not larger than 2; the host name parameter reaches the outgoing question by no other route (everything derived from it passes through sha256.Sum256 first); the cache is keyed by the same 2-byte slice; " +
 			"(D2) the verdict compares full 32-byte hashes; (D3) cache transparency, structural part: the hash lists written to the cache come only from the hashes decoded from this response (never filtered against the asked names, never carried over from an older cache entry), negative entries are nil lists; an expired entry is treated as absent. " +
 			"(D4) every call in CheckHost that passes the name on passes the lower-cased name, so safe-browsing and parental lookups hash the canonical spelling whether or not rule filtering is enabled. " +
+			"(D3, cont.) cache entries are written only after the exchange with the lookup service returned no error. " +
 			"Not decided: label enumeration (last four labels, ICANN suffix cut), malformed TXT handling, transparency over all lookup histories.",
 		RuleText:    "Backward provenance slices (interprocedural inside the package) with sha256.Sum256 as the sanitiser; constant slice bounds; comparison operand types.",
 		Assumptions: []string{"crypto/sha256, encoding/hex and miekg/dns SetQuestion behave as documented", "debug logging of the host name is not a disclosure to the lookup service"},
@@ -164,7 +165,7 @@ func runC19(c *Ctx) {
 		// processAnswer's verdict comes from findMatch on (asked, received)
 		pa := p.Fn("(*filtering/hashprefix.Checker).processAnswer")
 		if pa != nil {
-			r.Check(len(core.CallsTo(pa, "filtering/hashprefix.findMatch")) > 0, "C19-D2", "verdict-from-findMatch", p.FnPos(pa), "processAnswer decides with findMatch", "processAnswer no longer decides with findMatch")
+			r.Check(len(core.CallsToDeep(pa, "filtering/hashprefix.findMatch")) > 0, "C19-D2", "verdict-from-findMatch", p.FnPos(pa), "processAnswer decides with findMatch", "processAnswer no longer decides with findMatch")
 		}
 	}
 
@@ -232,6 +233,21 @@ func c19Cache(c *Ctx) {
 	r.Floor("C19-D3", "cache-store-sites", n, 2)
 	// what Check hands to storeInCache: the received hashes are exactly the decoded TXT strings
 	chk := p.Fn("(*filtering/hashprefix.Checker).Check")
+	if chk != nil {
+		// the cache is written only with what the service answered: never after a failed exchange
+		gOK, nOK := core.CondEdges(chk, func(at core.Atom) (bool, bool) {
+			if (at.Op == token.EQL || at.Op == token.NEQ) && core.IsNilConst(at.Other) {
+				if call, idx, ok := core.CallResult(core.ResolveCellLoad(at.Base)); ok && idx == 1 && call.Common().IsInvoke() && call.Common().Method.Name() == "Exchange" {
+					return true, at.Op == token.EQL
+				}
+			}
+			return false, false
+		})
+		offS, nsS := core.UnguardedSinks(chk, core.IsCallTo(false, "(*filtering/hashprefix.Checker).storeInCache"), gOK)
+		r.Check(nOK > 0 && nsS > 0 && len(offS) == 0, "C19-D3", "cache-written-only-after-an-answer", p.FnPos(chk),
+			"cache entries are written only after the lookup service answered",
+			"a cache entry can be written although the exchange with the lookup service failed: the (negative) entry then answers later lookups for the prefix that a fresh lookup would answer differently", traceOf(p, offS)...)
+	}
 	for _, call := range core.CallsTo(chk, "(*filtering/hashprefix.Checker).storeInCache") {
 		os := core.Origins(call.Arg(2), core.ProvOpts{Prog: p, InterprocDepth: 3, IntoModuleCalls: true})
 		var bad []string
